@@ -259,6 +259,7 @@ def formats() -> st.SearchStrategy:
             "sep": st.sampled_from([" ", " ", "  ", "\t", " \t "]),
             "opt": st.sampled_from(["", "", " ", "  ", "\t"]),
             "trail": st.sampled_from(["", "", " ", " \t"]),
+            "blank_lines": st.sampled_from([False, False, True]),
             "noise": st.integers(0, 2**32 - 1),  # drives the neutral insertions (whitespace-only lines, empty lines before statements, orphans)
         }
     )
@@ -329,18 +330,24 @@ def render(model: typing.Any, fmt: typing.Any, tb: TextBuilder) -> str:
     lines: typing.List[str] = []
     sep, opt, trail = fmt["sep"], fmt["opt"], fmt["trail"]
 
+    def empty() -> str:
+        """An empty line - or, in plans that say so, a line of blanks only: trailing blanks are not supposed to matter."""
+        if fmt.get("blank_lines") and rnd.next(2):
+            return [" ", "\t", "  \t "][rnd.next(3)]
+        return ""
+
     def neutral_before_statement() -> None:
         r = rnd.next(6)
         if r == 1:
             lines.append(" \t"[: 1 + rnd.next(2)])  # whitespace-only line: no effect at all
         elif r == 2:
-            lines.append("")  # empty line directly before a statement: flushes what the statement would flush anyway
+            lines.append(empty())  # empty line directly before a statement: flushes what the statement would flush anyway
         elif r == 3:
-            lines.append("")
+            lines.append(empty())
             lines.append("# orphan comment %d" % rnd.next(100))
         elif r == 4:
-            lines.append("")
-            lines.append("")
+            lines.append(empty())
+            lines.append(empty())
 
     def statement(text: str, same: typing.Optional[str] = None) -> None:
         neutral_before_statement()
@@ -372,10 +379,10 @@ def render(model: typing.Any, fmt: typing.Any, tb: TextBuilder) -> str:
                 statement(it["text"])
                 continue
             if k == "orphan":
-                lines.append("")
+                lines.append(empty())
                 for c in it["lines"]:
                     lines.append("#" + c)
-                lines.append("")
+                lines.append(empty())
                 continue
             if k == "field":
                 tb.emit(it["type"])
@@ -388,7 +395,7 @@ def render(model: typing.Any, fmt: typing.Any, tb: TextBuilder) -> str:
             for c in it["after"]:
                 lines.append((" " if rnd.next(4) == 1 else "") + "#" + c)
             if it["gap"]:
-                lines.append("")
+                lines.append(empty())
         if sealed_at is not None and sealed_at == len(sec["items"]):
             statement("@sealed")
         if sec["mode"][0] == "extent":
